@@ -95,6 +95,10 @@ func methodIsNot(cp CFGPath, verb string) bool {
 }
 
 func runC19(c *Ctx) {
+	// clause shared with C04: the GET message parameter is decoded into exactly its bytes
+	defer c.ImportRules("C04", "C04.9")
+	// clause shared with C18: a rejected request is answered by the transcoder, never forwarded
+	defer c.ImportRules("C18", "C18.2")
 	p := c.P
 	// clause shared with C02 (see DESIGN.md section 6a)
 	defer c.ImportRules("C02", "C02.10")
